@@ -39,7 +39,7 @@ and stmts () = let k = num () in times k stmt
 let rec pexpr () =
   match next () with
   | "n" -> PName (str ())
-  | "c" -> let r = str () in let numeric = (num () = 1) in PConst (r, numeric)
+  | "c" -> let r = str () in let kind = n_of_int (num ()) in PConst (r, kind)
   | "named" -> let t = pexpr () in let v = pexpr () in PNamed (t, v)
   | "a" -> let e = pexpr () in PAttr (e, str ())
   | "call" -> let f = pexpr () in let na = num () in let args = times na pexpr in let nk = num () in
